@@ -14,7 +14,7 @@ from sim import shapes, pool as simpool, disk as simdisk
 from sim.core import Rng, SimCrash, close, h64
 
 PROPS = ["C15"]
-BUDGET = {"C15": {"quick": {"runs": 6000, "wall_cap_s": 150}, "thorough": {"runs": 80000, "wall_cap_s": 1800}}}
+BUDGET = {"C15": {"quick": {"runs": 4000, "wall_cap_s": 170}, "thorough": {"runs": 80000, "wall_cap_s": 1800}}}
 RULE = {"C15": "one case = one seeded history (3-20 steps) over 1-3 surfaces and a container: sample sizes 2-12 (thorough up to 40), vertex "
                "spacings dividing n-1, forced / cached tessellation, edits, container tessellation on 1-4 simulated workers, quad "
                "tessellation, OBJ/OFF/STL export to strings and to a simulated disk with faults, polygonal and spline trims; "
@@ -74,7 +74,9 @@ def gen(prop, stream, tier, avoid):
         k = rng.weighted(W)
         op = {"op": k, "obj": rng.randrange(4)}
         if k == "sample":
-            op["n"] = [rng.randint(2, max_n), rng.randint(2, max_n)] if rng.chance(0.6) else [rng.randint(2, max_n)] * 2
+            trimmed_ = bool(objs[op["obj"] % nobj].get("trim"))
+            lo_n, hi_n = (10, max(20, max_n)) if trimmed_ else (2, max_n)
+            op["n"] = [rng.randint(lo_n, hi_n), rng.randint(lo_n, hi_n)] if rng.chance(0.6) else [rng.randint(lo_n, hi_n)] * 2
             op["how"] = rng.pick(["sample_size", "uv", "delta"])
         elif k == "tessellate":
             op["spacing"] = rng.randrange(6)
@@ -387,6 +389,7 @@ class SurfState:
         self.tess_before = False        # a tessellation happened at some point
         self.dirty_since = False        # ... and something intervened since
         self.trim = spec.get("trim")
+        self.spacing = None             # vertex spacing of the mesh the surface currently holds, when the model knows it
 
 
 def run(script, ctx):
@@ -401,7 +404,7 @@ def run(script, ctx):
     world = []
     for spec in script["objects"]:
         o = shapes.build(spec)
-        o.sample_size = 4
+        o.sample_size = 14 if spec.get("trim") else 4      # fine enough for cells deep inside / well outside a trim to exist
         st = SurfState(o, spec)
         if st.trim:
             t = st.trim
@@ -469,8 +472,10 @@ def run(script, ctx):
             ctx.ops_executed += 1
             about_to_observe(st)
             check_mesh(ctx, V, F, s, "surface #%d after tessellate(vertex_spacing=%d, force=%r) with sample size %r" % (i, sp, op["force"], (nu, nv)), sig,
-                       expect_spacing=sp if (op["force"] or not was) else None, sample=(nu, nv), trim=st.trim,
+                       expect_spacing=sp if (op["force"] or not was) else st.spacing, sample=(nu, nv), trim=st.trim,
                        id_offset=V[0][0] if V else 0)
+            if op["force"] or not was:
+                st.spacing = sp
             st.tess_before, st.dirty_since = True, False
             if sp > 1:
                 ctx.probe("vertex_spacing_gt_1")
@@ -478,6 +483,8 @@ def run(script, ctx):
         elif k == "read":
             nu, nv = s.sample_size
             about_to_observe(st)
+            if not s.tessellator.is_tessellated():
+                st.spacing = 1          # reading the mesh of a surface that holds none tessellates with the default spacing
             try:
                 V, F = _mesh_of(s)
             except Exception as e:
@@ -485,7 +492,7 @@ def run(script, ctx):
             ctx.log("read", i, len(V), len(F))
             ctx.ops_executed += 1
             check_mesh(ctx, V, F, s, "surface #%d vertices/faces read with sample size %r" % (i, (nu, nv)), sig, sample=(nu, nv), trim=st.trim,
-                       id_offset=V[0][0] if V else 0)
+                       id_offset=V[0][0] if V else 0, expect_spacing=st.spacing)
             st.tess_before, st.dirty_since = True, False
         elif k == "edit":
             rng = Rng(op["seed"], "edit")
@@ -510,6 +517,9 @@ def run(script, ctx):
                 outcome = "returned"
             except Exception as e:
                 outcome = type(e).__name__
+            st.spacing = None
+            for m in members:
+                world[m].spacing = None
             ctx.fault("failing_tessellate_call")
             ctx.log("bad_tessellate", i, op["how"], outcome)
             ctx.ops_executed += 1
@@ -571,9 +581,13 @@ def run(script, ctx):
             if op["num_procs"] > 1:
                 kw["num_procs"] = op["num_procs"]
             fired0 = dict(ctx.faults)
+            redo = [m for m in members if op["force"] or not world[m].obj.tessellator.is_tessellated() or
+                    (op["delta"] and list(world[m].obj.delta) != list(cont.delta))]
             try:
                 cont.tessellate(**kw)
                 outcome = "returned"
+                for m in redo:
+                    world[m].spacing = 1     # the element was (re-)tessellated by the container with the default spacing
             except Exception as e:
                 outcome = "raised:" + type(e).__name__
             ctx.log("ctess", op["num_procs"], op["delta"], op["force"], outcome.split(":")[0])
@@ -585,6 +599,8 @@ def run(script, ctx):
                 ctx.probe("container_tessellate_hit_by_worker_fault")
                 for m in members:
                     touched(world[m])
+                    if op["num_procs"] <= 1:
+                        world[m].spacing = None      # (cannot happen fault-free; stay on the safe side)
                 continue
             for m in members:
                 about_to_observe(world[m])
@@ -598,6 +614,8 @@ def run(script, ctx):
                 ctx.ops_skipped += 1
                 continue
             for m in members:
+                if not world[m].obj.tessellator.is_tessellated() or list(world[m].obj.delta) != list(cont.delta):
+                    world[m].spacing = 1
                 about_to_observe(world[m])
             _check_container(ctx, cont, members, world, "container vertices/faces read", dict(op=k, trimmed=any(world[m].trim for m in members)))
             ctx.ops_executed += 1
@@ -615,6 +633,10 @@ def run(script, ctx):
 
 
 def _check_container(ctx, cont, members, world, what, sig, fresh_sample=None):
+    for m in members:
+        # reading the container mesh pushes the container delta into elements that differ and tessellates what holds no mesh
+        if not world[m].obj.tessellator.is_tessellated() or list(world[m].obj.delta) != list(cont.delta):
+            world[m].spacing = 1
     V = [[v.id, list(v.uv), list(v.data)] for v in cont.vertices]
     F = [list(f.vertex_ids) for f in cont.faces]
     ctx.log("cmesh", len(V), len(F))
@@ -649,8 +671,8 @@ def _check_container(ctx, cont, members, world, what, sig, fresh_sample=None):
                      check="container_concat", **sig)
         off_f += len(subF)
         check_mesh(ctx, subV, subF, elem, "%s, element %d (surface #%d)" % (what, pos, m), sig,
-                   sample=tuple(elem.sample_size) if fresh_sample else None, trim=st.trim, id_offset=lo,
-                   expect_spacing=1 if fresh_sample else None)
+                   sample=tuple(elem.sample_size), trim=st.trim, id_offset=lo,
+                   expect_spacing=1 if fresh_sample else st.spacing)
     if off_f != len(F):
         ctx.fail("mesh_invalid", "%s: %d container faces do not belong to exactly one element" % (what, len(F) - off_f), check="container_concat", **sig)
     ctx.probe("container_mesh_checked")
@@ -708,8 +730,10 @@ def _do_export(ctx, g, disk, op, idx, st, i, cont, members, world, about_to_obse
     disk.disarm()
     ctx.log("export", fmt, op["target"], sp, op["update_delta"], op["to"], outcome.split(":")[0], fired)
     ctx.ops_executed += 1
-    for _, s_ in surfs:
+    for (_, s_), was in zip(surfs, was_tessellated):
         s_.tess_before, s_.dirty_since = True, False
+        if op["update_delta"] or not was:
+            s_.spacing = sp          # the writers tessellate before they touch the disk
     if fired:
         ctx.probe("mesh_export_hit_by_fault")
         return
@@ -727,9 +751,11 @@ def _do_export(ctx, g, disk, op, idx, st, i, cont, members, world, about_to_obse
         # tessellate: it re-applies the sampling (update_delta) or the surface held no mesh. (With update_delta=False an
         # existing mesh is legitimately re-used, whatever its spacing.)
         fresh = op["update_delta"] or not was
+        if fresh:
+            s_.spacing = sp
         if V or not s_.trim:
             check_mesh(ctx, V, F, o, "mesh written by export_%s(vertex_spacing=%d, update_delta=%r)" % (fmt, sp, op["update_delta"]), sig,
-                       expect_spacing=sp if fresh else None, sample=tuple(o.sample_size), trim=s_.trim, id_offset=V[0][0] if V else 0)
+                       expect_spacing=sp if fresh else s_.spacing, sample=tuple(o.sample_size), trim=s_.trim, id_offset=V[0][0] if V else 0)
         ids = [v[0] for v in V]
         base = ids[0] if ids else 0
         # element ids may legitimately be global after a container tessellation; the file must index the concatenated list
